@@ -74,6 +74,8 @@ pub struct Op {
     pub ctx: Vec<u8>,
     pub stream: Vec<u8>,
     pub rng_plan: Vec<(usize, RngFault)>,
+    /// errno carried by the device's errors (0 = custom code)
+    pub rng_errno: u32,
     pub kplan: Vec<KResp>,
 }
 
@@ -85,6 +87,7 @@ impl Op {
             "ctx": hx(&self.ctx),
             "stream": hx(&self.stream),
             "rng_plan": self.rng_plan.iter().map(|(i, f)| { let mut v = f.to_json(); v["req"] = json!(i); v }).collect::<Vec<_>>(),
+            "rng_errno": self.rng_errno,
             "kernel_plan": self.kplan.iter().map(|k| k.to_json()).collect::<Vec<_>>(),
         })
     }
@@ -99,6 +102,7 @@ impl Op {
                 .iter()
                 .map(|e| Some((e["req"].as_u64()? as usize, RngFault::from_json(e)?)))
                 .collect::<Option<Vec<_>>>()?,
+            rng_errno: v["rng_errno"].as_u64().unwrap_or(0) as u32,
             kplan: v["kernel_plan"].as_array()?.iter().map(KResp::from_json).collect::<Option<Vec<_>>>()?,
         })
     }
@@ -177,6 +181,7 @@ pub fn exec(set: &dyn DynSet, key: Option<&dyn DynSk>, op: &Op) -> Outcome {
         }
     } else {
         let mut rng = SimRng::new(op.stream.clone(), op.rng_plan.clone());
+        rng.err_code = op.rng_errno;
         let r = catch(|| match op.entry {
             Entry::KeygenRng => Some(set.keygen_rng(&mut rng).map(pair_bytes)),
             Entry::SignRng(mode) => Some(key.expect("harness: key").sign_rng(&mut rng, &op.msg, &op.ctx, mode)),
@@ -258,9 +263,10 @@ fn fault_sig(op: &Op) -> String {
         match op.rng_plan.first() {
             None => "r:none".into(),
             Some((i, f)) => format!(
-                "r:req{}:{}:{}",
+                "r:req{}:{}:e{}:{}",
                 i,
                 f.class(),
+                op.rng_errno,
                 match f {
                     RngFault::ErrPartial(n) => match n {
                         1 => "1",
@@ -422,6 +428,7 @@ fn enum_unit(ctx: &Ctx, set: &dyn DynSet, entry: Entry, variant: u64, run: u64) 
         ctx: p.bytes(ctx_len),
         stream: p.bytes(160),
         rng_plan: vec![],
+        rng_errno: 0,
         kplan: vec![],
     };
     // fault-point discovery: a fault-free recording run
@@ -470,6 +477,16 @@ fn enum_unit(ctx: &Ctx, set: &dyn DynSet, entry: Entry, variant: u64, run: u64) 
                 let mut op = base.clone();
                 op.rng_plan = vec![(req, f)];
                 faulted_ops.push(op);
+            }
+            // the same device failures reported with an OS errno (a device wrapping the OS does that):
+            // "transient-looking" codes must be reported just the same
+            for f in [RngFault::ErrClean, RngFault::ErrPartial(7), RngFault::ErrFull] {
+                for code in [4u32, 11, 5, 1] {
+                    let mut op = base.clone();
+                    op.rng_plan = vec![(req, f)];
+                    op.rng_errno = code;
+                    faulted_ops.push(op);
+                }
             }
         }
     }
@@ -546,6 +563,23 @@ fn enum_unit(ctx: &Ctx, set: &dyn DynSet, entry: Entry, variant: u64, run: u64) 
         return out;
     }
 
+    // ---- degenerate but legal device outputs: all-zero and all-one draws are draws like any other ----
+    for fillv in [0x00u8, 0xFF] {
+        let mut op = base.clone();
+        op.stream.iter_mut().for_each(|b| *b = fillv);
+        let o = exec(set, key.as_deref(), &op);
+        out.evals += 1;
+        bump(&mut out.probes, "degenerate_stream_runs", 1);
+        if let Some(inv) = judge(&op, &o) {
+            out.viols.push(viol(info.name, &key_seed, prov, &[op.clone()], 0, inv, None, run));
+            return out;
+        }
+        if !matches!(o.res, Res::Ok(_)) {
+            out.harness = Some(format!("C12 precondition: fault-free {} returned {} for a constant draw", entry.name(), o.res.show()));
+            return out;
+        }
+    }
+
     // ---- I4: every drawn bit matters ----
     let d = o0.delivered.len();
     let need = if entry == Entry::Dudect { 64 } else { 32 };
@@ -611,8 +645,10 @@ fn history_run(ctx: &Ctx, run: u64) -> RunOut {
     let n_ops = 3 + p.usize_below(10);
     // swarm: per-run fault rate and enabled entry subset
     let fault_pct = *p.pick(&[0u64, 20, 40, 70]);
+    let checked = ctx.flavour == "checked";
     let entries: Vec<Entry> = {
-        let all_e = all_entries();
+        // the constant-time test entry point is left out of the checked flavour (see `run`)
+        let all_e: Vec<Entry> = all_entries().into_iter().filter(|e| !(checked && *e == Entry::Dudect)).collect();
         let mut e: Vec<Entry> = all_e.iter().copied().filter(|_| p.chance(2, 3)).collect();
         if e.is_empty() {
             e = all_e;
@@ -629,13 +665,14 @@ fn history_run(ctx: &Ctx, run: u64) -> RunOut {
         let entry = *p.pick(&entries);
         let msg_len = *p.pick(&MSG_LENS[..7]);
         let ctx_len = *p.pick(&CTX_LENS);
-        let mut op = Op { entry, msg: p.bytes(msg_len), ctx: p.bytes(ctx_len), stream: p.bytes(160), rng_plan: vec![], kplan: vec![] };
+        let mut op = Op { entry, msg: p.bytes(msg_len), ctx: p.bytes(ctx_len), stream: p.bytes(160), rng_plan: vec![], rng_errno: 0, kplan: vec![] };
         let faulty = p.chance(fault_pct, 100);
         if entry.is_os() {
             op.kplan = if faulty { p.pick(&kfails).clone() } else { p.pick(&kbenign).clone() };
         } else if faulty {
             let req = if entry == Entry::Dudect { p.usize_below(2) } else { 0 };
             op.rng_plan = vec![(req, *p.pick(&faults))];
+            op.rng_errno = *p.pick(&[0u32, 0, 4, 11, 5]);
         }
         ops.push(op);
         let idx = ops.len() - 1;
